@@ -306,8 +306,8 @@ pub fn well_formed(root: &Schema) -> Vec<IllFormed> {
                         out.push(IllFormed { class: "duplicate-field".into(), msg: format!("field {:?} twice", f.name) });
                     }
                     if let Some(d) = &f.default {
-                        if let Err(m) = default_conforms(&f.schema, &from_serde(d), ns_owned.as_deref(), defs, 0) {
-                            out.push(IllFormed { class: format!("default-nonconforming/{}", kind_name(&f.schema)), msg: format!("field {}: default {} does not conform: {m}", f.name, d) });
+                        if let Err((kind, m)) = default_conforms(&f.schema, &from_serde(d), ns_owned.as_deref(), defs, 0) {
+                            out.push(IllFormed { class: format!("default-nonconforming/{kind}"), msg: format!("field {}: default {} does not conform: {m}", f.name, d) });
                         }
                     }
                     walk(&f.schema, ns_owned.as_deref(), defs, out);
@@ -355,11 +355,11 @@ fn is_int_text(n: &str) -> Option<i128> {
 
 /// The spec's table "field default values": does JSON `d` encode a value of schema `s`?
 /// Union: some branch (the current specification's rule).
-pub fn default_conforms(s: &Schema, d: &Js, enclosing: Option<&str>, defs: &BTreeMap<String, &Schema>, depth: usize) -> Result<(), String> {
+pub fn default_conforms(s: &Schema, d: &Js, enclosing: Option<&str>, defs: &BTreeMap<String, &Schema>, depth: usize) -> Result<(), (String, String)> {
     if depth > 64 {
         return Ok(());
     }
-    let bad = |what: &str| Err(format!("expected {what}, found {}", d.render()));
+    let bad = |what: &str| Err((kind_name(s).to_string(), format!("expected {what}, found {}", d.render())));
     match s {
         Schema::Null => matches!(d, Js::Null).then_some(()).ok_or(()).or_else(|_| bad("null")),
         Schema::Boolean => matches!(d, Js::Bool(_)).then_some(()).ok_or(()).or_else(|_| bad("boolean")),
@@ -380,21 +380,27 @@ pub fn default_conforms(s: &Schema, d: &Js, enclosing: Option<&str>, defs: &BTre
         Schema::Float | Schema::Double => matches!(d, Js::Num(_)).then_some(()).ok_or(()).or_else(|_| bad("number")),
         Schema::Bytes | Schema::BigDecimal | Schema::Decimal(DecimalSchema { inner: InnerDecimalSchema::Bytes, .. }) | Schema::Uuid(UuidSchema::Bytes) => match d {
             Js::Str(x) if x.chars().all(|c| (c as u32) < 256) => Ok(()),
+            Js::Str(_) => Err((format!("{}-non-latin1", kind_name(s)), format!("string default with code points above 255: {}", d.render()))),
+            Js::Arr(items) if items.iter().all(|x| matches!(x.as_i128(), Some(0..=255))) => {
+                Err((format!("{}-from-int-array", kind_name(s)), format!("array of small integers as a bytes default: {}", d.render())))
+            }
             _ => bad("string of code points 0-255"),
         },
         Schema::String | Schema::Uuid(UuidSchema::String) => matches!(d, Js::Str(_)).then_some(()).ok_or(()).or_else(|_| bad("string")),
         Schema::Fixed(f) | Schema::Duration(f) | Schema::Uuid(UuidSchema::Fixed(f)) | Schema::Decimal(DecimalSchema { inner: InnerDecimalSchema::Fixed(f), .. }) => match d {
-            Js::Str(x) if x.chars().all(|c| (c as u32) < 256) => {
+            Js::Str(x) if !x.chars().all(|c| (c as u32) < 256) => Err((format!("{}-non-latin1", kind_name(s)), format!("string default with code points above 255: {}", d.render()))),
+            Js::Str(x) => {
                 if x.chars().count() == f.size {
                     Ok(())
                 } else {
-                    Err(format!("fixed({}) default has {} characters", f.size, x.chars().count()))
+                    Err((format!("{}-length", kind_name(s)), format!("fixed({}) default has {} characters", f.size, x.chars().count())))
                 }
             }
             _ => bad("string of code points 0-255"),
         },
         Schema::Enum(e) => match d {
             Js::Str(x) if e.symbols.contains(x) => Ok(()),
+            Js::Str(_) if e.default.is_some() => Err(("enum-unknown-symbol-with-enum-default".to_string(), format!("{} is not a symbol (the enum has a default symbol)", d.render()))),
             _ => bad("one of the symbols"),
         },
         Schema::Array(a) => match d {
@@ -423,7 +429,7 @@ pub fn default_conforms(s: &Schema, d: &Js, enclosing: Option<&str>, defs: &BTre
                         Some((_, v)) => default_conforms(&f.schema, v, ns_owned.as_deref(), defs, depth + 1)?,
                         None => {
                             if f.default.is_none() {
-                                return Err(format!("record default lacks field {} which has no default of its own", f.name));
+                                return Err(("record-missing-field".to_string(), format!("record default lacks field {} which has no default of its own", f.name)));
                             }
                         }
                     }
@@ -433,8 +439,12 @@ pub fn default_conforms(s: &Schema, d: &Js, enclosing: Option<&str>, defs: &BTre
             _ => bad("object"),
         },
         Schema::Union(u) => {
-            if u.variants().iter().any(|b| default_conforms(b, d, enclosing, defs, depth + 1).is_ok()) {
+            let errs: Vec<(String, String)> = u.variants().iter().filter_map(|b| default_conforms(b, d, enclosing, defs, depth + 1).err()).collect();
+            if errs.len() < u.variants().len() {
                 Ok(())
+            } else if let Some(e) = errs.iter().find(|(k, _)| k.ends_with("-length") || k.ends_with("-non-latin1") || k.starts_with("enum-unknown") || k.ends_with("-from-int-array")) {
+                // a branch of the right JSON kind failed only on its length: that is the root cause
+                Err(e.clone())
             } else {
                 bad("a value of some union branch")
             }
